@@ -114,8 +114,11 @@ def run(seed):
     # ---- 5. the write-behind handshake (TraceCoord.tla): one recorded fact corrupted at a time
     import coordengine as co
     raw = os.path.join(rd, "self_coord.raw.ndjson")
+    _shm = v.shm_dir("selfcoord")
     rc, so, se2 = v.run_cmd([fxv, "coord", "--kind", "mixed", "--cpus", "4", "--seed", str(seed + 11), "--steps", "50", "--out", raw,
-                             "--dir", v.shm_dir("selfcoord")], timeout=240)
+                             "--dir", _shm], timeout=240)
+    import shutil as _sh
+    _sh.rmtree(_shm, ignore_errors=True)
     if rc != 0:
         raise v.ToolError("fxv coord failed in the selftest: " + se2[-300:])
     t0 = os.path.join(rd, "coord_self.ndjson")
